@@ -157,10 +157,11 @@ func caseC20(c *Ctx) {
 	for i := 0; i < steps && !s.Failed(); i++ {
 		switch c.R.Weighted([]int{3, 6, 4, 5, 1, 2, 2, 2}) {
 		case 0: // register the next resource type
-			if registered < len(keys) {
+			if registered < len(keys) && len(s.ResIDs) < limit {
+				before := len(s.ResIDs)
 				s.resRegister(keys[registered])
 				registered++
-				if len(s.ResIDs) != registered {
+				if len(s.ResIDs) != before+1 {
 					s.fail("res.register", "registering resource type %s did not yield a new ID", keys[registered-1])
 				}
 			}
@@ -266,6 +267,41 @@ func caseC20(c *Ctx) {
 		if !checkResources(s) {
 			break
 		}
+		// asking for a resource whose type this world has never seen: must be nil, whatever else is present
+		if c.R.Chance(0.08) && len(s.ResIDs) < limit {
+			unknown := []string{}
+			for k := range resAccs {
+				if !contains2(s.ResKeys, k) && !contains2(keys, k) {
+					unknown = append(unknown, k)
+				}
+			}
+			if len(unknown) > 0 {
+				sortStrings(unknown)
+				k := Pick(c.R, unknown)
+				var got any
+				if p := func() (p any) {
+					defer func() { p = recover() }()
+					got = resAccs[k].getFn(s.W)
+					return nil
+				}(); p != nil {
+					s.fail("res.unknown.panic", "GetResource for a type never added or registered in this world panicked: %v", p)
+					break
+				}
+				if got != nil {
+					s.fail("res.unknown.get", "GetResource for a type never added or registered in this world returned %v", got)
+					break
+				}
+				// the call may have registered the type; keep the registration log in step
+				if ids := ecs.ResourceIDs(s.W); len(ids) == len(s.ResIDs)+1 {
+					s.ResIDs = append(s.ResIDs, ids[len(ids)-1])
+					s.ResKeys = append(s.ResKeys, k)
+				}
+				s.Cov.N["res_unknown_type_gets"]++
+				if !checkResources(s) {
+					break
+				}
+			}
+		}
 	}
 	for _, q := range held {
 		q.Close()
@@ -295,4 +331,13 @@ func caseC20(c *Ctx) {
 	if s.Cov.N["res_generic_checks"] > 0 && s.Cov.N["res_strict_faults"] > 0 && s.Cov.Ops["ResRemove"] > 0 {
 		c.NonTrivial(HashStr(fmt.Sprint(keys, c.Case)))
 	}
+}
+
+func contains2(xs []string, x string) bool {
+	for _, y := range xs {
+		if x == y {
+			return true
+		}
+	}
+	return false
 }
